@@ -21,6 +21,7 @@ package rsl
 //@ spec pMsg(text string) string
 //@ spec pUpRepo(text string) string
 //@ spec pUpEntry(text string) Hash
+//@ axiom pNumberNonNegative: forall(t, string, pNumber(t) >= 0)
 //@ axiom pKindRange: forall(t, string, pOK(t) ==> 1 <= pKind(t) && pKind(t) <= 3)
 //@ axiom pNIDsPos: forall(t, string, pOK(t) && pKind(t) == 2 ==> pNIDs(t) >= 1)
 
